@@ -498,9 +498,11 @@ impl SlabRouter {
                 data: value.clone(),
             })
             .map_err(|e| SlabRouterError::WalError(format!("Failed to log put: {e}")))?;
+            #[cfg(neumann_verif)]
+            crate::verif_hooks::yield_point("store.durable.logged");
         }
         #[cfg(neumann_verif)]
-        crate::verif_hooks::yield_point("store.durable.logged");
+        crate::verif_hooks::yield_point("store.durable.unlocked");
 
         // Apply to in-memory state
         self.put(key, value)
@@ -532,9 +534,11 @@ impl SlabRouter {
                 key: key.to_string(),
             })
             .map_err(|e| SlabRouterError::WalError(format!("Failed to log delete: {e}")))?;
+            #[cfg(neumann_verif)]
+            crate::verif_hooks::yield_point("store.durable.logged");
         }
         #[cfg(neumann_verif)]
-        crate::verif_hooks::yield_point("store.durable.logged");
+        crate::verif_hooks::yield_point("store.durable.unlocked");
 
         // Apply to in-memory state
         self.delete(key)
